@@ -1088,11 +1088,14 @@ pub fn gen_response_kind(rng: &mut Rng, cfg: &GenCfg, kind: usize) -> Response<'
             let n = rng.range(1, 6) as usize;
             let uids = (0..n)
                 .map(|_| {
+                    // a range value is a set: it is kept normalised (low..=high); the printer may spell
+                    // it in either order
                     let a = gen_u32(rng);
                     if rng.chance(1, 3) {
                         a..=a
                     } else {
-                        a..=gen_u32(rng)
+                        let b = gen_u32(rng);
+                        std::cmp::min(a, b)..=std::cmp::max(a, b)
                     }
                 })
                 .collect();
